@@ -4,11 +4,27 @@
 // append order). The real wal.Writer produces the files under the simulator;
 // every truncation offset and a dense set of single-byte corruptions of each
 // file is then fed to the real Reader and Recovery.
+//
+// Two kinds of plan:
+// Every plan first produces the same appends again and again with one
+// transient I/O fault on the LIVE writer (a write that fails after some bytes
+// landed, a write that fails outright, a file creation that fails; every WAL
+// fs operation of the log in turn); the writer keeps appending afterwards, and
+// the files are then read back (intact, cut at every entry/fragment boundary,
+// and through Recovery). What the writer put where is taken from the fs
+// operation log, not from parsing the file, so "completely written" is ground
+// truth. Then, by plan mode:
+//   - mode "bytes": every truncation offset and a dense set of single-byte
+//     corruptions of each fault-free file (the original, expensive check);
+//   - mode "wfaults": chains of two live-writer faults (cheap, many logs).
 package main
 
 import (
+	"bytes"
 	"context"
+	"encoding/binary"
 	"fmt"
+	"hash/crc32"
 	"io"
 	"math"
 	"os"
@@ -36,10 +52,31 @@ type Append struct {
 	Seed int64  `json:"seed"` // value seed
 }
 
+// FaultSpec is one transient I/O fault on the live writer. At counts the WAL
+// fs operations (writes to, creations of and truncations of *.wal files) after
+// NewWriter returned (first fault of a chain) or after the previous fault of
+// the chain fired. A creation or truncation fails with Err; a write of N bytes
+// lets min(Short, N-1) bytes land and then fails with Err (Short 0: nothing
+// lands).
+type FaultSpec struct {
+	At    int    `json:"at"`
+	Short int    `json:"short"`
+	Err   string `json:"err"` // enospc | eio | short (io.ErrShortWrite)
+}
+
 type C06Plan struct {
 	Appends  []Append `json:"appends"`
 	MaxBytes int64    `json:"max_bytes"` // rotation size
 	Double   bool     `json:"double"`    // thorough: also double faults
+	// Mode "" / "bytes": truncation + corruption enumeration of fault-free files.
+	// Mode "wfaults": enumeration of live-writer I/O faults (see package comment).
+	Mode  string `json:"mode,omitempty"`
+	Pairs bool   `json:"pairs,omitempty"` // wfaults: also chains of two faults
+	// wfaults: also chains of three faults (a failed write, then two of the
+	// operations of the writer's own error path fail as well)
+	Triples bool `json:"triples,omitempty"`
+	// Only, when set, replaces the enumeration by this one chain (minimised replays).
+	Only []FaultSpec `json:"only,omitempty"`
 }
 
 var quiet = zerolog.New(io.Discard).Level(zerolog.Disabled)
@@ -70,6 +107,13 @@ func genC06(r *simrt.Rand, tier string) any {
 		a := Append{Kind: []string{"meta", "meta", "raw", "rows"}[r.Intn(4)], DB: dbs[r.Intn(len(dbs))], Meas: []string{"cpu", "m", "mem_total"}[r.Intn(3)],
 			N: 1 + r.Intn(3), Pad: pads[r.Intn(len(pads))], Seed: int64(r.Intn(1 << 30))}
 		p.Appends = append(p.Appends, a)
+	}
+	// half of the plans exercise the live writer under I/O faults (cheap: no
+	// byte-corruption enumeration), the other half the byte-level fault space
+	if r.Chance(50) {
+		p.Mode = "wfaults"
+		p.Pairs = r.Chance(70)
+		p.Triples = p.Pairs && r.Chance(40)
 	}
 	return p
 }
@@ -200,27 +244,195 @@ func same(a, b logical) bool {
 type fileInfo struct {
 	path    string
 	data    []byte
-	entries []int // indexes into plan.Appends, in file order
-	ends    []int // end offset of each entry in this file
+	entries []int    // indexes into plan.Appends of the completely written entries, in file order
+	starts  []int    // start offset of each of them
+	ends    []int    // end offset of each of them
+	fired   []int    // how many injected writer faults had fired when that entry was written
+	firedT  []int    // how many of those were failed truncations
+	frags   [][2]int // byte ranges left behind by writes that failed part-way
+	// lo..hi: the appended entries any of whose bytes may be in this file (those
+	// completely written here plus those a failed write left a fragment of).
+	// A fragment can be completed by the bytes that follow it (e.g. all but a
+	// final 0x00 landed and the next record starts with 0x00), and the reader
+	// then returns a byte-identical appended entry: legitimate.
+	lo, hi int
 }
 
-// produce runs the real Writer under the simulator and returns the files in
-// creation order with the entries each one holds.
-func produce(p *C06Plan, cfg simrt.Config, dir string) ([]fileInfo, simrt.Result, error) {
+// wrec is one write the writer issued to a WAL file (from the fs operation log).
+type wrec struct {
+	file   string // base name
+	off    int    // file size before the write (files are opened O_APPEND)
+	n      int    // bytes requested
+	landed int    // bytes that reached the file
+	fired  int    // injected faults fired so far (this write included)
+	firedT int    // failed truncations among them
+	trunc  bool   // not a write: the file was truncated to off bytes
+	data   []byte // what a complete write put into the file (read back right after the write)
+}
+
+type opInfo struct {
+	kind string // write | create | truncate
+	n    int
+	off  int
+}
+
+// wstate follows every write to / creation of a *.wal file of one production
+// and injects the plan's fault chain.
+type wstate struct {
+	sizes  map[string]int
+	writes []wrec
+	armed  bool     // NewWriter has returned
+	ops    []opInfo // operations seen since armed
+	chain  []FaultSpec
+	next   int // next fault of the chain
+	cnt    int // operations seen since the previous fault fired
+	fired  int
+	firedT int
+	desc   []string
+}
+
+// observe runs after every fs operation: a successful truncation changes what
+// the file holds (the operation record does not carry the new size: ask the
+// file system).
+func (st *wstate) observe(op *simrt.FSOp, err error) {
+	if err != nil || !strings.HasSuffix(op.Path, ".wal") {
+		return
+	}
+	if op.Kind == "write" && len(st.writes) > 0 {
+		// keep the bytes of a complete write: a later truncation may cut them again
+		if last := &st.writes[len(st.writes)-1]; !last.trunc && last.landed == last.n && last.data == nil && last.file == filepath.Base(op.Path) {
+			f, oerr := os.Open(op.Path)
+			if oerr != nil {
+				panic("HARNESS-ERROR open after write: " + oerr.Error())
+			}
+			last.data = make([]byte, last.n)
+			if _, rerr := f.ReadAt(last.data, int64(last.off)); rerr != nil {
+				panic("HARNESS-ERROR read back after write: " + rerr.Error())
+			}
+			f.Close()
+		}
+		return
+	}
+	if op.Kind != "truncate" {
+		return
+	}
+	info, serr := os.Stat(op.Path)
+	if serr != nil {
+		panic("HARNESS-ERROR stat after truncate: " + serr.Error())
+	}
+	file := filepath.Base(op.Path)
+	st.sizes[file] = int(info.Size())
+	st.writes = append(st.writes, wrec{file: file, off: int(info.Size()), trunc: true})
+}
+
+func errOf(name string, total bool) error {
+	switch name {
+	case "enospc":
+		return simrt.ENOSPC
+	case "eio":
+		return simrt.EIO
+	}
+	if total {
+		return simrt.EIO // "short" has no meaning for an operation that does nothing
+	}
+	return nil // simrt reports io.ErrShortWrite
+}
+
+func (st *wstate) inject(op *simrt.FSOp) simrt.FSAction {
+	if !strings.HasSuffix(op.Path, ".wal") || (op.Kind != "write" && op.Kind != "create" && op.Kind != "truncate") {
+		return simrt.FSAction{}
+	}
+	file := filepath.Base(op.Path)
+	off := st.sizes[file]
+	landed := op.N
+	var act simrt.FSAction
+	if st.armed {
+		st.ops = append(st.ops, opInfo{kind: op.Kind, n: op.N, off: off})
+		if st.next < len(st.chain) {
+			if st.cnt == st.chain[st.next].At {
+				f := st.chain[st.next]
+				st.next++
+				st.cnt = 0
+				st.fired++
+				if op.Kind == "create" {
+					act = simrt.FSAction{Err: errOf(f.Err, true)}
+					simrt.Count("fault.wal_create_error", 1)
+					st.desc = append(st.desc, fmt.Sprintf("creation of a new WAL file fails (%v)", act.Err))
+				} else if op.Kind == "truncate" {
+					act = simrt.FSAction{Err: errOf(f.Err, true)}
+					st.firedT++
+					simrt.Count("fault.wal_truncate_error", 1)
+					st.desc = append(st.desc, fmt.Sprintf("truncation of the %d-byte WAL file fails (%v)", off, act.Err))
+				} else {
+					s := f.Short
+					if s > op.N-1 {
+						s = op.N - 1
+					}
+					if s <= 0 {
+						act = simrt.FSAction{Err: errOf(f.Err, true)}
+						landed = 0
+						simrt.Count("fault.wal_write_error", 1)
+						st.desc = append(st.desc, fmt.Sprintf("write of %d bytes at offset %d fails with nothing written (%v)", op.N, off, act.Err))
+					} else {
+						act = simrt.FSAction{Err: errOf(f.Err, false), Short: s}
+						landed = s
+						simrt.Count("fault.wal_partial_write", 1)
+						if off == 7 {
+							simrt.Count("probe.partial_write_of_first_entry_of_file", 1)
+						}
+						st.desc = append(st.desc, fmt.Sprintf("write of %d bytes at offset %d fails after %d bytes (%s)", op.N, off, s, f.Err))
+					}
+				}
+				simrt.Event("WFAULT %s", st.desc[len(st.desc)-1])
+			} else {
+				st.cnt++
+			}
+		}
+	}
+	if op.Kind == "write" {
+		st.writes = append(st.writes, wrec{file: file, off: off, n: op.N, landed: landed, fired: st.fired, firedT: st.firedT})
+		st.sizes[file] = off + landed
+	}
+	return act
+}
+
+type production struct {
+	files     []fileInfo
+	res       simrt.Result
+	st        *wstate
+	malformed error // the writer's output is not what a correct writer leaves behind
+	lost      int   // appended entries that were never completely written (only legitimate under faults)
+}
+
+// produce runs the real Writer under the simulator (with the given chain of
+// transient I/O faults) and returns the files in creation order with the
+// entries and fragments each one holds.
+func produce(p *C06Plan, cfg simrt.Config, dir string, chain []FaultSpec, want []logical) *production {
+	pr := &production{st: &wstate{sizes: map[string]int{}, chain: chain}}
+	st := pr.st
+	payloads := make([][]byte, len(p.Appends)) // exact payload bytes handed to the writer (meta/raw)
 	var werr error
-	res := simrt.Run(cfg, func() {
+	pr.res = simrt.Run(cfg, func() {
 		simrt.SetPathRoot(dir)
+		simrt.SetFSInjector(st.inject)
+		simrt.SetFSObserver(st.observe)
 		w, err := wal.NewWriter(&wal.WriterConfig{WALDir: dir, SyncMode: wal.SyncModeFdatasync, MaxSizeBytes: p.MaxBytes, MaxAge: time.Hour, BufferSize: 1000, Logger: quiet})
 		if err != nil {
 			werr = err
 			return
 		}
-		for _, a := range p.Appends {
+		st.armed = true
+		for i, a := range p.Appends {
 			switch a.Kind {
 			case "meta":
-				err = w.AppendRawWithMeta(a.DB, mpMarshal(a.columnar()))
+				mp := mpMarshal(a.columnar())
+				env := []byte{0x01, byte(len(a.DB) >> 8), byte(len(a.DB))}
+				payloads[i] = append(append(env, a.DB...), mp...)
+				err = w.AppendRawWithMeta(a.DB, mp)
 			case "raw":
-				err = w.AppendRaw(mpMarshal(a.columnar()))
+				mp := mpMarshal(a.columnar())
+				payloads[i] = mp
+				err = w.AppendRaw(mp)
 			default:
 				err = w.Append(a.rows())
 			}
@@ -235,38 +447,143 @@ func produce(p *C06Plan, cfg simrt.Config, dir string) ([]fileInfo, simrt.Result
 		}
 	})
 	if werr != nil {
-		return nil, res, werr
+		pr.malformed = werr
+		return pr
 	}
 	names, _ := filepath.Glob(filepath.Join(dir, "*.wal"))
 	sort.Strings(names) // file names carry the creation timestamp
-	var files []fileInfo
-	next := 0
+	idx := map[string]int{}
 	for _, nm := range names {
 		b, err := os.ReadFile(nm)
 		if err != nil {
-			return nil, res, err
+			panic(err)
 		}
-		fi := fileInfo{path: nm, data: b}
-		off := 7
-		for off+16 <= len(b) {
-			n := int(uint32(b[off])<<24 | uint32(b[off+1])<<16 | uint32(b[off+2])<<8 | uint32(b[off+3]))
-			if off+16+n > len(b) {
-				return nil, res, fmt.Errorf("writer produced an incomplete entry in %s", nm)
+		if len(b) != st.sizes[filepath.Base(nm)] {
+			panic(fmt.Sprintf("HARNESS-ERROR fs operation log says %s holds %d bytes, it holds %d", filepath.Base(nm), st.sizes[filepath.Base(nm)], len(b)))
+		}
+		idx[filepath.Base(nm)] = len(pr.files)
+		pr.files = append(pr.files, fileInfo{path: nm, data: b, lo: 0, hi: -1})
+	}
+	// walk the writes in the order they were issued (= append order: one writer task, FIFO queue)
+	next := 0
+	var pending []int // files holding a fragment of an entry not identified yet
+	for _, wr := range st.writes {
+		k, ok := idx[wr.file]
+		if !ok {
+			panic("HARNESS-ERROR write to a WAL file that does not exist: " + wr.file)
+		}
+		fi := &pr.files[k]
+		switch {
+		case wr.trunc:
+			// the writer cut the file back to wr.off bytes: what lay beyond is gone
+			var frags [][2]int
+			for _, fr := range fi.frags {
+				if fr[1] > wr.off {
+					fr[1] = wr.off
+				}
+				if fr[0] < fr[1] {
+					frags = append(frags, fr)
+				}
 			}
-			off += 16 + n
-			fi.entries = append(fi.entries, next)
-			fi.ends = append(fi.ends, off)
-			next++
+			fi.frags = frags
+			for q := len(fi.ends) - 1; q >= 0 && fi.ends[q] > wr.off; q-- {
+				// a completely written entry was cut: it is a fragment now (or gone)
+				if fi.starts[q] < wr.off {
+					fi.frags = append(fi.frags, [2]int{fi.starts[q], wr.off})
+				}
+				fi.entries, fi.starts, fi.ends, fi.fired, fi.firedT = fi.entries[:q], fi.starts[:q], fi.ends[:q], fi.fired[:q], fi.firedT[:q]
+			}
+		case wr.off == 0 && wr.n == 7:
+			// file header (possibly cut short: the writer then abandons the file)
+		case wr.landed < wr.n:
+			if wr.landed > 0 {
+				fi.frags = append(fi.frags, [2]int{wr.off, wr.off + wr.landed})
+				if fi.hi < fi.lo {
+					fi.lo, fi.hi = next, next
+				}
+				pending = append(pending, k) // a fragment of entry next or of a later one (FIFO)
+			}
+		default:
+			j := identify(wr.data, next, p, payloads, want)
+			if j < 0 {
+				pr.malformed = fmt.Errorf("the writer wrote a complete %d-byte record at offset %d of file %d (%d bytes) that is not the next appended entry (trailing bytes / incomplete entry / stray header)", wr.n, wr.off, k, len(fi.data))
+				return pr
+			}
+			pr.lost += j - next
+			if fi.hi < fi.lo {
+				fi.lo = next
+			}
+			fi.hi = j
+			for _, pk := range pending { // the fragments before this write belong to entries <= j
+				if pr.files[pk].hi < j {
+					pr.files[pk].hi = j
+				}
+			}
+			pending = nil
+			next = j + 1
+			fi.entries = append(fi.entries, j)
+			fi.starts = append(fi.starts, wr.off)
+			fi.ends = append(fi.ends, wr.off+wr.n)
+			fi.fired = append(fi.fired, wr.fired)
+			fi.firedT = append(fi.firedT, wr.firedT)
 		}
-		if off != len(b) {
-			return nil, res, fmt.Errorf("trailing bytes in %s", nm)
+	}
+	for _, pk := range pending {
+		pr.files[pk].hi = len(p.Appends) - 1
+	}
+	pr.lost += len(p.Appends) - next
+	if st.fired == 0 && pr.lost > 0 {
+		pr.malformed = fmt.Errorf("writer stored %d entries, %d were appended (no I/O fault)", len(p.Appends)-pr.lost, len(p.Appends))
+	}
+	return pr
+}
+
+// identify returns the index (>= from) of the appended entry that frame is the
+// complete on-disk form of, or -1.
+func identify(frame []byte, from int, p *C06Plan, payloads [][]byte, want []logical) int {
+	if len(frame) < 16 || int(binary.BigEndian.Uint32(frame[0:4])) != len(frame)-16 {
+		return -1
+	}
+	payload := frame[16:]
+	if crc32.ChecksumIEEE(payload) != binary.BigEndian.Uint32(frame[12:16]) {
+		return -1
+	}
+	for j := from; j < len(p.Appends); j++ {
+		if payloads[j] != nil {
+			if bytes.Equal(payloads[j], payload) {
+				return j
+			}
+			continue
 		}
-		files = append(files, fi)
+		var recs []map[string]interface{}
+		if err := msgpack.Unmarshal(payload, &recs); err == nil && same(logical{kind: "rows", obj: norm(recs)}, want[j]) {
+			return j
+		}
 	}
-	if next != len(p.Appends) {
-		return nil, res, fmt.Errorf("writer stored %d entries, %d were appended", next, len(p.Appends))
+	return -1
+}
+
+func layout(files []fileInfo) string {
+	var sb strings.Builder
+	for i, f := range files {
+		type seg struct {
+			a, b int
+			s    string
+		}
+		var segs []seg
+		for k := range f.entries {
+			segs = append(segs, seg{f.starts[k], f.ends[k], fmt.Sprintf("E%d", f.entries[k])})
+		}
+		for _, fr := range f.frags {
+			segs = append(segs, seg{fr[0], fr[1], "partial"})
+		}
+		sort.Slice(segs, func(x, y int) bool { return segs[x].a < segs[y].a })
+		fmt.Fprintf(&sb, " file%d(%dB):", i, len(f.data))
+		for _, s := range segs {
+			fmt.Fprintf(&sb, "[%s %d..%d]", s.s, s.a, s.b)
+		}
 	}
-	return files, res, nil
+	return sb.String()
 }
 
 func readFile(path string) (ents []wal.Entry, err error, panicked interface{}) {
@@ -279,189 +596,152 @@ func readFile(path string) (ents []wal.Entry, err error, panicked interface{}) {
 	return
 }
 
-func runC06(planAny any, cfg simrt.Config) *simkit.Outcome {
-	p := planAny.(*C06Plan)
-	out := &simkit.Outcome{}
-	dir := scratch()
-	defer os.RemoveAll(dir)
-	files, res, err := produce(p, cfg, dir)
-	out.Absorb(res)
-	if len(res.Panics) > 0 {
-		out.Violate("C06.writer-panic", "%s", res.Panics[0])
-		return out
-	}
-	if err != nil {
-		out.Violate("C06.writer-output-malformed", "%v", err)
-		return out
-	}
-	want := make([]logical, len(p.Appends))
-	for i, a := range p.Appends {
-		want[i] = a.logical()
-	}
-	work := filepath.Join(dir, "mut")
-	os.MkdirAll(work, 0o755)
-	mpath := filepath.Join(work, "m.wal")
-	evals := int64(0)
-	// check verifies one mutated image of file fi.
-	check := func(fi *fileInfo, img []byte, what string, truncAt int) bool {
-		evals++
-		if err := os.WriteFile(mpath, img, 0o600); err != nil {
-			panic(err)
-		}
-		ents, rerr, pv := readFile(mpath)
-		if pv != nil {
-			out.Violate("C06.reader-panic", "%s: reader panicked: %v", what, pv)
-			return false
-		}
-		_ = rerr
-		// returned entries must be a subsequence of this file's appended entries
-		j := 0
-		var matched []int
-		for ri, e := range ents {
-			le := entryLogical(e)
-			found := false
-			for j < len(fi.entries) {
-				if same(le, want[fi.entries[j]]) {
-					matched = append(matched, j)
-					j++
-					found = true
-					break
-				}
-				j++
+// hiddenRule names the violation "a completely written entry was not returned":
+// when a write that failed part-way left a fragment in front of it (only
+// possible with live-writer faults) the circumstance is part of the id.
+func hiddenRule(fi *fileInfo, k int) string {
+	for _, fr := range fi.frags {
+		if fr[1] <= fi.starts[k] {
+			// the circumstance: how many injected faults it took (counted when the
+			// hidden entry was written) and whether a failed truncation is among them
+			switch {
+			case fi.fired[k] <= 1:
+				return "C06.complete-entry-hidden-behind-partial-write.one-transient-fault"
+			case fi.firedT[k] == 0:
+				return "C06.complete-entry-hidden-behind-partial-write.repeated-faults"
+			case fi.fired[k] == 2:
+				return "C06.complete-entry-hidden-behind-partial-write.two-faults-including-failed-truncate"
 			}
-			if !found {
-				// is it equal to an earlier entry (reordered/duplicated) or to nothing (altered/fabricated)?
-				kind := "altered-or-fabricated"
-				for _, ei := range fi.entries {
-					if same(le, want[ei]) {
-						kind = "reordered-or-duplicated"
-					}
-				}
-				out.Violate("C06."+kind+"-entry", "%s: returned entry #%d (db=%q) is not the next intact appended entry", what, ri, le.db)
-				return false
-			}
-		}
-		if truncAt >= 0 {
-			// every entry completely before the truncation point must be returned
-			need := 0
-			for _, e := range fi.ends {
-				if e <= truncAt {
-					need++
-				}
-			}
-			if len(matched) < need {
-				out.Violate("C06.truncation-hides-complete-entry", "%s: %d entries lie completely before the truncation point, %d were returned", what, need, len(matched))
-				return false
-			}
-			for k := 0; k < need; k++ {
-				if matched[k] != k {
-					out.Violate("C06.truncation-hides-complete-entry", "%s: entry %d (complete before the truncation point) was not returned", what, k)
-					return false
-				}
-			}
-		}
-		return true
-	}
-	for fidx := range files {
-		fi := &files[fidx]
-		n := len(fi.data)
-		if !check(fi, fi.data, fmt.Sprintf("file %d intact", fidx), n) {
-			break
-		}
-		// every truncation offset
-		for t := 0; t < n; t++ {
-			if !check(fi, fi.data[:t], fmt.Sprintf("file %d truncated at %d/%d", fidx, t, n), t) {
-				goto done
-			}
-		}
-		// single-byte corruptions
-		img := make([]byte, n)
-		hdr := map[int]bool{}
-		off := 7
-		for _, e := range fi.ends {
-			for k := 0; k < 16+6 && off+k < e; k++ {
-				hdr[off+k] = true // length, timestamp, crc, first payload bytes (envelope marker + db length)
-			}
-			off = e
-		}
-		for pos := 0; pos < n; pos++ {
-			xs := []byte{0x01, 0x80, 0xff}
-			if hdr[pos] || pos < 7 {
-				if n <= 700 {
-					xs = xs[:0]
-					for x := 1; x < 256; x++ {
-						xs = append(xs, byte(x))
-					}
-				} else {
-					xs = []byte{0x01, 0x02, 0x10, 0x40, 0x80, 0xff, 0x7f}
-				}
-			}
-			for _, x := range xs {
-				// a corrupted length that asks for tens of MB is legal for the reader; skip the
-				// two top length bytes' high values only for speed when they make >32MB reads
-				copy(img, fi.data)
-				img[pos] ^= x
-				if !check(fi, img, fmt.Sprintf("file %d byte %d xor %#x", fidx, pos, x), -1) {
-					goto done
-				}
-			}
-		}
-		if p.Double {
-			r := simrt.NewRand(uint64(n)*7919 + uint64(fidx))
-			for k := 0; k < 300; k++ {
-				copy(img, fi.data)
-				a, b := r.Intn(n), r.Intn(n)
-				img[a] ^= byte(1 + r.Intn(255))
-				img[b] ^= byte(1 + r.Intn(255))
-				t := r.Intn(n + 1)
-				if !check(fi, img[:t], fmt.Sprintf("file %d bytes %d,%d flipped, truncated at %d", fidx, a, b, t), -1) {
-					goto done
-				}
-			}
+			return "C06.complete-entry-hidden-behind-partial-write.repeated-faults-including-failed-truncate"
 		}
 	}
-	// Recovery over the whole directory: intact files, last file truncated at every entry boundary ± 1
-	if len(out.Violations) == 0 {
-		checkRecovery(out, p, files, want, dir, &evals)
-	}
-done:
-	out.Evals = evals
-	out.Stats["probe.files"] += int64(len(files))
-	out.Stats["fault.truncation_or_corruption_positions"] += evals
-	out.Nontrivial = len(p.Appends) > 0
-	return out
+	return "C06.truncation-hides-complete-entry"
 }
 
-// checkRecovery runs wal.Recovery on copies of all files with the newest file
-// truncated, and checks the replayed stream: order across files, nothing
-// fabricated, complete entries not hidden.
-func checkRecovery(out *simkit.Outcome, p *C06Plan, files []fileInfo, want []logical, dir string, evals *int64) {
-	if len(files) == 0 {
-		return
+// judge evaluates mutated images of WAL files against the appended entries.
+type judge struct {
+	out   *simkit.Outcome
+	want  []logical
+	dir   string
+	mpath string
+	evals int64
+	ctx   string // the live-writer faults of the production under test ("" = none)
+	// faulted: a live-writer fault fired, so fragments exist that following bytes
+	// may complete; without faults Recovery must replay exactly the complete entries
+	faulted bool
+}
+
+func newJudge(out *simkit.Outcome, want []logical, dir string) *judge {
+	work := filepath.Join(dir, "mut")
+	os.MkdirAll(work, 0o755)
+	return &judge{out: out, want: want, dir: dir, mpath: filepath.Join(work, "m.wal")}
+}
+
+// check verifies one mutated image of file fi. truncAt >= 0: the image is the
+// file cut at that offset (the whole file for truncAt == len).
+func (j *judge) check(fi *fileInfo, img []byte, what string, truncAt int) bool {
+	out, want := j.out, j.want
+	j.evals++
+	if err := os.WriteFile(j.mpath, img, 0o600); err != nil {
+		panic(err)
 	}
-	last := files[len(files)-1]
-	cuts := map[int]bool{len(last.data): true}
-	for _, e := range last.ends {
+	what = j.ctx + what
+	ents, _, pv := readFile(j.mpath)
+	if pv != nil {
+		out.Violate("C06.reader-panic", "%s: reader panicked: %v", what, pv)
+		return false
+	}
+	// returned entries must be a subsequence of this file's appended entries
+	// (fault-free writer: lo..hi are exactly the entries of the file)
+	k := fi.lo
+	matched := map[int]bool{}
+	for ri, e := range ents {
+		le := entryLogical(e)
+		found := false
+		for k <= fi.hi {
+			if same(le, want[k]) {
+				matched[k] = true
+				k++
+				found = true
+				break
+			}
+			k++
+		}
+		if !found {
+			// is it equal to an earlier entry (reordered/duplicated) or to nothing (altered/fabricated)?
+			kind := "altered-or-fabricated"
+			for ei := fi.lo; ei <= fi.hi; ei++ {
+				if same(le, want[ei]) {
+					kind = "reordered-or-duplicated"
+				}
+			}
+			out.Violate("C06."+kind+"-entry", "%s: returned entry #%d (db=%q) is not the next intact appended entry", what, ri, le.db)
+			return false
+		}
+	}
+	if truncAt >= 0 {
+		// every entry completely before the truncation point must be returned
+		need := 0
+		for _, e := range fi.ends {
+			if e <= truncAt {
+				need++
+			}
+		}
+		for q := 0; q < need; q++ {
+			if !matched[fi.entries[q]] {
+				out.Violate(hiddenRule(fi, q), "%s: %d entries lie completely before the truncation point, %d entries were returned; entry %d of the file (bytes %d..%d, completely written) was not returned", what, need, len(ents), q, fi.starts[q], fi.ends[q])
+				return false
+			}
+		}
+	}
+	return true
+}
+
+// boundaryCuts: the file length and every entry / fragment boundary -1, +0, +1, +9.
+func boundaryCuts(fi *fileInfo) []int {
+	n := len(fi.data)
+	cuts := map[int]bool{n: true}
+	add := func(b int) {
 		for _, d := range []int{-1, 0, 1, 9} {
-			if c := e + d; c >= 0 && c <= len(last.data) {
+			if c := b + d; c >= 0 && c <= n {
 				cuts[c] = true
 			}
 		}
+	}
+	for q := range fi.ends {
+		add(fi.starts[q])
+		add(fi.ends[q])
+	}
+	for _, fr := range fi.frags {
+		add(fr[0])
+		add(fr[1])
 	}
 	var cl []int
 	for c := range cuts {
 		cl = append(cl, c)
 	}
 	sort.Ints(cl)
-	for _, cut := range cl {
-		*evals++
-		rdir := filepath.Join(dir, "rec")
+	return cl
+}
+
+// checkRecovery runs wal.Recovery on copies of all files with the newest file
+// truncated, and checks the replayed stream: order across files, nothing
+// fabricated, complete entries not hidden.
+func (j *judge) checkRecovery(files []fileInfo) bool {
+	out, want := j.out, j.want
+	if len(files) == 0 {
+		return true
+	}
+	li := len(files) - 1
+	for _, cut := range boundaryCuts(&files[li]) {
+		j.evals++
+		rdir := filepath.Join(j.dir, "rec")
 		os.RemoveAll(rdir)
 		os.MkdirAll(rdir, 0o755)
 		base := time.Now().Add(-time.Hour)
 		for i, f := range files {
 			data := f.data
-			if i == len(files)-1 {
+			if i == li {
 				data = data[:cut]
 			}
 			pth := filepath.Join(rdir, filepath.Base(f.path))
@@ -479,33 +759,343 @@ func checkRecovery(out *simkit.Outcome, p *C06Plan, files []fileInfo, want []log
 			return nil
 		}})
 		if err != nil {
-			out.Violate("C06.recovery-error", "recovery failed on a truncated tail: %v", err)
-			return
+			out.Violate("C06.recovery-error", "%srecovery failed on a truncated tail: %v", j.ctx, err)
+			return false
 		}
-		need := 0
-		for i, f := range files {
-			for _, e := range f.ends {
-				if i < len(files)-1 || e <= cut {
-					need++
+		// the completely written entries that survive the cut, in file order
+		type ref struct{ f, q int }
+		var exp []ref
+		for i := range files {
+			for q, e := range files[i].ends {
+				if i < li || e <= cut {
+					exp = append(exp, ref{i, q})
 				}
 			}
 		}
-		if len(got) != need {
-			out.Violate("C06.recovery-entry-count", "recovery replayed %d entries, %d are complete in the files (newest file cut at %d)", len(got), need, cut)
-			return
-		}
+		// the replayed stream is a subsequence of the appended entries, in append order ...
+		k := 0
+		replayed := map[int]bool{}
 		for i := range got {
-			if !same(got[i], want[i]) {
-				out.Violate("C06.recovery-altered-or-reordered", "recovery replayed entry %d differently from what was appended (db %q vs %q)", i, got[i].db, want[i].db)
-				return
+			for k < len(want) && !same(got[i], want[k]) {
+				k++
+			}
+			if k == len(want) {
+				db := ""
+				if i < len(exp) {
+					db = want[files[exp[i].f].entries[exp[i].q]].db
+				}
+				out.Violate("C06.recovery-altered-or-reordered", "%srecovery replayed entry %d differently from what was appended (db %q vs %q; newest file cut at %d)", j.ctx, i, got[i].db, db, cut)
+				return false
+			}
+			replayed[k] = true
+			k++
+		}
+		// ... that holds every completely written entry (with a fault-free writer: exactly those)
+		for _, r := range exp {
+			if !replayed[files[r.f].entries[r.q]] {
+				rule := "C06.recovery-entry-count"
+				if hr := hiddenRule(&files[r.f], r.q); hr != "C06.truncation-hides-complete-entry" {
+					rule = hr
+				}
+				out.Violate(rule, "%srecovery replayed %d entries, %d are complete in the files (newest file cut at %d); entry %d of file %d was not replayed", j.ctx, len(got), len(exp), cut, r.q, r.f)
+				return false
+			}
+		}
+		if len(got) != len(exp) && !j.faulted {
+			out.Violate("C06.recovery-entry-count", "%srecovery replayed %d entries, %d are complete in the files (newest file cut at %d)", j.ctx, len(got), len(exp), cut)
+			return false
+		}
+	}
+	return true
+}
+
+// cheap: every file intact and cut at its entry/fragment boundaries, then Recovery.
+func (j *judge) cheap(files []fileInfo) bool {
+	for fidx := range files {
+		fi := &files[fidx]
+		n := len(fi.data)
+		for _, t := range boundaryCuts(fi) {
+			what := fmt.Sprintf("file %d truncated at %d/%d", fidx, t, n)
+			if t == n {
+				what = fmt.Sprintf("file %d intact", fidx)
+			}
+			if !j.check(fi, fi.data[:t], what, t) {
+				return false
 			}
 		}
 	}
+	return j.checkRecovery(files)
+}
+
+// bytesEnum: every truncation offset and the single-byte corruptions of every file.
+func (j *judge) bytesEnum(p *C06Plan, files []fileInfo) bool {
+	for fidx := range files {
+		fi := &files[fidx]
+		n := len(fi.data)
+		// every truncation offset
+		for t := 0; t < n; t++ {
+			if !j.check(fi, fi.data[:t], fmt.Sprintf("file %d truncated at %d/%d", fidx, t, n), t) {
+				return false
+			}
+		}
+		// single-byte corruptions
+		img := make([]byte, n)
+		hdr := map[int]bool{}
+		for q, e := range fi.ends {
+			for k := 0; k < 16+6 && fi.starts[q]+k < e; k++ {
+				hdr[fi.starts[q]+k] = true // length, timestamp, crc, first payload bytes (envelope marker + db length)
+			}
+		}
+		for pos := 0; pos < n; pos++ {
+			xs := []byte{0x01, 0x80, 0xff}
+			if hdr[pos] || pos < 7 {
+				if n <= 700 {
+					xs = xs[:0]
+					for x := 1; x < 256; x++ {
+						xs = append(xs, byte(x))
+					}
+				} else {
+					xs = []byte{0x01, 0x02, 0x10, 0x40, 0x80, 0xff, 0x7f}
+				}
+			}
+			for _, x := range xs {
+				copy(img, fi.data)
+				img[pos] ^= x
+				if !j.check(fi, img, fmt.Sprintf("file %d byte %d xor %#x", fidx, pos, x), -1) {
+					return false
+				}
+			}
+		}
+		if p.Double {
+			r := simrt.NewRand(uint64(n)*7919 + uint64(fidx))
+			for k := 0; k < 300; k++ {
+				copy(img, fi.data)
+				a, b := r.Intn(n), r.Intn(n)
+				img[a] ^= byte(1 + r.Intn(255))
+				img[b] ^= byte(1 + r.Intn(255))
+				t := r.Intn(n + 1)
+				if !j.check(fi, img[:t], fmt.Sprintf("file %d bytes %d,%d flipped, truncated at %d", fidx, a, b, t), -1) {
+					return false
+				}
+			}
+		}
+	}
+	return true
+}
+
+// shortSet: how many bytes of an n-byte write land before it fails. Around the
+// 16-byte entry header, one byte, half, all but one.
+func shortSet(n int) []int {
+	seen := map[int]bool{}
+	var out []int
+	for _, s := range []int{1, 15, 16, 17, 20, n / 2, n - 1} {
+		if s >= 1 && s <= n-1 && !seen[s] {
+			seen[s] = true
+			out = append(out, s)
+		}
+	}
+	sort.Ints(out)
+	return out
+}
+
+// chains enumerates the live-writer fault space of one log. Level 0: every WAL
+// fs operation of the fault-free production fails once (writes: part-way at
+// the offsets of shortSet, or outright), and each of those faults once more
+// with the very next WAL fs operation failing as well (the condition that made
+// the first one fail usually lasts). Level 1 (pairs): the second fault hits
+// any of the next five operations - the writer's own error path: cut the
+// fragment off, create the next file, write its header, re-write the entry,
+// the following append - part-way or outright. Level 2 (triples): after a
+// write that failed part-way, two of the next operations fail.
+func chains(ops []opInfo, level int) [][]FaultSpec {
+	errs := []string{"enospc", "eio", "short"}
+	var out [][]FaultSpec
+	for i, op := range ops {
+		if op.kind != "write" {
+			out = append(out, []FaultSpec{{At: i, Err: errs[i%2]}})
+			continue
+		}
+		for q, s := range append(shortSet(op.n), 0) {
+			out = append(out, []FaultSpec{{At: i, Short: s, Err: errs[(i+q)%3]}})
+		}
+	}
+	firsts := func(i int, op opInfo, shorts []int) []FaultSpec {
+		if op.kind != "write" {
+			return []FaultSpec{{At: i, Err: "enospc"}}
+		}
+		var fs []FaultSpec
+		for _, s := range shorts {
+			if s <= op.n-1 {
+				fs = append(fs, FaultSpec{At: i, Short: s, Err: "enospc"})
+			}
+		}
+		return fs
+	}
+	for i, op := range ops {
+		for _, f := range firsts(i, op, []int{20, op.n - 1, 0}) {
+			for at := 0; at < 5; at++ {
+				for q, s := range []int{0, 5, 1 << 20} {
+					if level >= 1 || (at == 0 && s == 0) {
+						out = append(out, []FaultSpec{f, {At: at, Short: s, Err: errs[(at+q)%3]}})
+					}
+				}
+			}
+		}
+	}
+	if level < 2 {
+		return out
+	}
+	for i, op := range ops {
+		if op.kind != "write" || (op.off == 0 && op.n == 7) {
+			continue
+		}
+		for _, f := range firsts(i, op, []int{20, op.n - 1}) {
+			for at2 := 0; at2 < 4; at2++ {
+				for _, s2 := range []int{0, 5} {
+					for at3 := 0; at3 < 3; at3++ {
+						for _, s3 := range []int{0, 5} {
+							out = append(out, []FaultSpec{f, {At: at2, Short: s2, Err: errs[at2%3]}, {At: at3, Short: s3, Err: errs[at3%3]}})
+						}
+					}
+				}
+			}
+		}
+	}
+	return out
+}
+
+// lastChains remembers, per rule, the fault chain of the most recent violating
+// wfaults run so that the shrinker can propose "only this chain" (the proposal
+// is verified by re-execution like any other shrink candidate).
+var lastChains = map[string][]FaultSpec{}
+
+func runC06(planAny any, cfg simrt.Config) *simkit.Outcome {
+	p := planAny.(*C06Plan)
+	out := &simkit.Outcome{}
+	dir := scratch()
+	defer os.RemoveAll(dir)
+	want := make([]logical, len(p.Appends))
+	for i, a := range p.Appends {
+		want[i] = a.logical()
+	}
+	bdir := filepath.Join(dir, "w")
+	os.MkdirAll(bdir, 0o755)
+	base := produce(p, cfg, bdir, nil, want)
+	out.Absorb(base.res)
+	j := newJudge(out, want, dir)
+	defer func() {
+		out.Evals = j.evals
+		out.Stats["fault.truncation_or_corruption_positions"] += j.evals
+	}()
+	if len(base.res.Panics) > 0 {
+		out.Violate("C06.writer-panic", "%s", base.res.Panics[0])
+		return out
+	}
+	if base.res.Outcome != "ok" {
+		return out
+	}
+	if base.malformed != nil {
+		out.Violate("C06.writer-output-malformed", "%v", base.malformed)
+		return out
+	}
+	out.Stats["probe.files"] += int64(len(base.files))
+	out.Nontrivial = len(p.Appends) > 0
+	// cheap checks first (whole files, boundary cuts, Recovery over the directory)
+	if !j.cheap(base.files) {
+		return out
+	}
+	// live-writer faults: single faults and "the next operation fails too" for
+	// every plan (cheap), all chains of two / three for wfaults plans
+	cs := [][]FaultSpec{p.Only}
+	if len(p.Only) == 0 {
+		level := 0
+		if p.Mode == "wfaults" && p.Pairs {
+			level = 1
+			if p.Triples {
+				level = 2
+			}
+		}
+		cs = chains(base.st.ops, level)
+	}
+	firedAny := false
+	nviol := 0
+	for ci, ch := range cs {
+		fdir := filepath.Join(dir, "f")
+		os.RemoveAll(fdir)
+		os.MkdirAll(fdir, 0o755)
+		pr := produce(p, cfg, fdir, ch, want)
+		out.Hash = out.Hash*1099511628211 ^ pr.res.TraceHash
+		out.Steps += pr.res.Steps
+		out.SimNs += pr.res.SimNs
+		for k, v := range pr.res.Stats {
+			out.Stats[k] += v
+		}
+		out.Stats["probe.writer_fault_cases"]++
+		j.ctx = fmt.Sprintf("writer fault case %d/%d [%s] ->%s: ", ci+1, len(cs), strings.Join(pr.st.desc, "; then "), layout(pr.files))
+		if len(pr.res.Panics) > 0 {
+			out.Violate("C06.writer-panic", "%s%s", j.ctx, pr.res.Panics[0])
+		} else if pr.res.Outcome != "ok" {
+			out.Sim, out.Tail = pr.res.Outcome, pr.res.Tail
+			return out
+		} else if pr.malformed != nil {
+			out.Violate("C06.writer-output-malformed", "%s%v", j.ctx, pr.malformed)
+		} else {
+			if pr.st.fired > 0 {
+				firedAny = true
+			}
+			j.faulted = pr.st.fired > 0
+			out.Stats["probe.entries_lost_to_writer_faults"] += int64(pr.lost)
+			for _, f := range pr.files {
+				if len(f.frags) > 0 {
+					out.Stats["probe.files_with_partial_entry"]++
+				}
+			}
+			j.cheap(pr.files)
+		}
+		// keep going after a violation: other chains may break other rules
+		// (Violate records one message per rule)
+		for _, v := range out.Violations[nviol:] {
+			lastChains[v.Rule] = append([]FaultSpec(nil), ch...)
+		}
+		nviol = len(out.Violations)
+		if nviol >= 3 {
+			return out
+		}
+	}
+	j.ctx, j.faulted = "", false
+	if nviol > 0 {
+		return out
+	}
+	if p.Mode != "wfaults" && len(p.Only) == 0 {
+		j.bytesEnum(p, base.files)
+		return out
+	}
+	out.Nontrivial = out.Nontrivial && firedAny
+	return out
 }
 
 func shrinkC06(planAny any) []any {
 	p := planAny.(*C06Plan)
 	var out []any
+	if len(p.Only) == 0 {
+		var rules []string
+		for r := range lastChains {
+			rules = append(rules, r)
+		}
+		sort.Strings(rules)
+		for _, r := range rules {
+			q := *p
+			q.Only = append([]FaultSpec(nil), lastChains[r]...)
+			out = append(out, &q)
+		}
+	}
+	if len(p.Only) > 1 {
+		for i := range p.Only {
+			q := *p
+			q.Only = append(append([]FaultSpec(nil), p.Only[:i]...), p.Only[i+1:]...)
+			out = append(out, &q)
+		}
+	}
 	for i := range p.Appends {
 		if len(p.Appends) > 1 {
 			q := *p
@@ -530,7 +1120,21 @@ func descC06(planAny any) any {
 	for _, a := range p.Appends {
 		s = append(s, fmt.Sprintf("%s(db=%q,m=%s,rows=%d,pad=%d)", a.Kind, a.DB, a.Meas, a.N, a.Pad))
 	}
-	return map[string]any{"appends": s, "rotate_at": p.MaxBytes, "faults": "every truncation offset + single-byte corruptions of every byte (all 255 values on header bytes)"}
+	faults := "live writer: every WAL write fails once part-way (1,15,16,17,20,n/2,n-1 bytes land) or outright, every WAL file creation fails once, each also with the next WAL fs operation (truncate/create/write) failing too; the writer keeps appending; files then read intact, cut at every entry/fragment boundary, and through Recovery"
+	if p.Mode == "wfaults" {
+		if p.Pairs {
+			faults += "; plus chains of two faults (second fault, part-way or outright, on one of the next 5 WAL fs operations)"
+		}
+		if p.Triples {
+			faults += " and chains of three (after a write that failed part-way)"
+		}
+	} else {
+		faults += "; fault-free files: every truncation offset + single-byte corruptions of every byte (all 255 values on header bytes)"
+	}
+	if len(p.Only) > 0 {
+		faults = fmt.Sprintf("live writer, only this fault chain: %+v", p.Only)
+	}
+	return map[string]any{"appends": s, "rotate_at": p.MaxBytes, "faults": faults}
 }
 
 func main() {
